@@ -96,7 +96,7 @@ func RunTLC(o TLCOpts) (*TLCResult, error) {
 		}
 	}
 
-	args := []string{"-XX:+UseParallelGC"}
+	args := []string{"-XX:+UseParallelGC", "-Djava.io.tmpdir=" + scratch} // TLC leaves tlc-* directories in java.io.tmpdir
 	if o.DFS {
 		args = append(args, "-Dtlc2.tool.queue.IStateQueue=StateDeque")
 	}
